@@ -538,3 +538,95 @@ def idxbase(ctx):
                    "feature ids are 1-based, the table 0-based" if want else
                    "slot 0 is the BOS/EOS feature"))
     ctx.floor("IDXBASE", "feature-id indexed accesses to rucrf weight tables", n, 2)
+
+
+def template_cover(ctx):
+    """TEMPLATE (C18, C20): FeatureExtractor::extract_feature_ids rebuilds a template as
+    literal text + substituted placeholders. Every literal segment must be copied: the text
+    between the cursor and the next capture inside the capture loop (on every iteration, with
+    the cursor moved to the capture's end), and the text after the last capture before the
+    expanded string is used as the map key. Dropping one segment merges templates that differ
+    only there and breaks the match with model.def lines."""
+    crate = ctx.facts("A").lib
+    E = Effects(crate)
+    ps = [q for q in crate.fns if strip_generics(q).endswith("FeatureExtractor::extract_feature_ids")]
+    if len(ps) != 1:
+        raise EngineError("TEMPLATE: anchor lost: FeatureExtractor::extract_feature_ids (%d found)" % len(ps))
+    p = ps[0]
+    fa = E.fa(p)
+    S = Sym(E, fa)
+    f = crate.fns[p]
+    loc = "%s:%s" % (f.file, f.line)
+    # slices of the raw template
+    slices = {}      # block of the index call -> ("range"|"from", symbolic range)
+    for b, t in fa.calls():
+        nm = {strip_generics(x).rsplit("::", 1)[-1] for x in callee_paths(t)}
+        if "index" in nm and len(t["args"]) == 2:
+            r = S.operand(t["args"][0])
+            if r[0] == "ap" and r[1].proj[-1:] == ("raw_template",):
+                i = S.operand(t["args"][1])
+                if i[0] == "agg" and i[1].endswith("RangeFrom"):
+                    slices[b] = ("from", i)
+                elif i[0] == "agg" and i[1].endswith("ops::Range") or (i[0] == "agg" and i[1].endswith("Range::Range")):
+                    slices[b] = ("range", i)
+    # push_str calls fed by those slices
+    pushes = {}
+    for b, t in fa.calls():
+        nm = {strip_generics(x).rsplit("::", 1)[-1] for x in callee_paths(t)}
+        if "push_str" in nm and len(t["args"]) == 2:
+            o = fa.origin(t["args"][1])
+            if o[0] == "call" and o[1] in slices:
+                pushes[b] = slices[o[1]]
+    # the capture loop and the key use
+    loops = [(b, t) for b, t in fa.calls()
+             if any(strip_generics(x).endswith("::next") for x in callee_paths(t))
+             and show(S.operand(t["args"][0])).endswith(".captures")]
+    uses = [b for b, t in fa.calls()
+            if {strip_generics(x).rsplit("::", 1)[-1] for x in callee_paths(t)} & {"entry", "insert", "get"}
+            and len(t["args"]) >= 2 and "HashMap" in " ".join(callee_paths(t))]
+    if len(loops) != 1 or not uses:
+        raise EngineError("TEMPLATE: capture loop / key use not recognised in extract_feature_ids")
+    H = loops[0][0]
+    sw = fa.term(H).get("t")
+    st = fa.term(sw)
+    some_t = [tg for v, tg in zip(st["vals"], st["targets"]) if v == 1][0]
+    none_t = ([tg for v, tg in zip(st["vals"], st["targets"]) if v == 0] or [st["otherwise"]])[0]
+    body = fa.reachable(some_t, avoid={H})
+    inloop = [b for b in pushes if b in body and pushes[b][0] == "range"]
+    ok1 = bool(inloop) and any(H not in fa.reachable(some_t, avoid={b}) for b in inloop)
+    ctx.ob("TEMPLATE", "literal-before-each-capture", ok1, loc,
+           "every iteration of the capture loop appends raw_template[cursor..capture.start]"
+           if ok1 else
+           "the capture loop does not append the literal text in front of a placeholder on every "
+           "iteration")
+    # the cursor: the start of the in-loop range is a variable assigned `capture.end` in the body
+    ok2 = False
+    if inloop:
+        rng = pushes[inloop[0]][1]
+        st_e = rng[2].get("start")
+        en_e = rng[2].get("end")
+        ok_end = en_e is not None and show(en_e).endswith(".start")
+        # find assignments `<local> = <capture>.end` in the body, on every iteration
+        cur_blocks = []
+        for b in body:
+            for s in fa.blocks[b]["stmts"]:
+                if "rv" in s and s["rv"]["k"] == "use" and not s["lhs"]["p"]:
+                    e = S.operand(s["rv"]["op"])
+                    if e[0] == "ap" and e[1].proj[-1:] == ("end",) and "captures" in repr(e[1]):
+                        if len(fa.defs().get(s["lhs"]["l"], [])) >= 2:
+                            cur_blocks.append(b)
+        ok2 = ok_end and bool(cur_blocks) and any(H not in fa.reachable(some_t, avoid={b}) for b in cur_blocks)
+    ctx.ob("TEMPLATE", "cursor-moves-to-capture-end", ok2, loc,
+           "the literal segment ends at capture.start and the cursor is set to capture.end on "
+           "every iteration" if ok2 else
+           "the cursor is not moved to the end of the placeholder on every iteration (or the "
+           "literal does not stop at its start): placeholder text is copied or literals are lost")
+    tail = [b for b in pushes if pushes[b][0] == "from" and b not in body]
+    ok3 = bool(tail) and all(any(fa.dominates(b, u) for b in tail) for u in uses) and \
+        any(b in fa.reachable(none_t) for b in tail)
+    ctx.ob("TEMPLATE", "literal-after-last-capture", ok3, loc,
+           "raw_template[cursor..] is appended after the loop, before the expanded string is "
+           "used as the key" if ok3 else
+           "the text after the last placeholder is not appended before the expanded string is "
+           "looked up: templates that differ only in their suffix share a feature id, and "
+           "model.def lines with that suffix no longer match")
